@@ -78,6 +78,25 @@ func (x *Exec) callValue(st *State, fr *Frame, fnv Value, args []Value, call *ss
 			}
 		}
 	}
+	// call through a struct field of function type (e.g. a hash constructor kept in a
+	// struct): a contract keyed "<pkg>.<Type>.<field>" applies
+	if call != nil {
+		if u, ok := call.Value.(*ssa.UnOp); ok {
+			if fa, ok := u.X.(*ssa.FieldAddr); ok {
+				if pt, ok := fa.X.Type().Underlying().(*types.Pointer); ok {
+					if n, ok := pt.Elem().(*types.Named); ok {
+						if stt, ok := n.Underlying().(*types.Struct); ok && fa.Field < stt.NumFields() {
+							key := qualName(n) + "." + stt.Field(fa.Field).Name()
+							if c := x.contractOf(key); c != nil {
+								x.safetyCheck(st, "nil", mkNot(mkEq(fnv.S, "0")), pos)
+								return x.applyContract(st, fr, c, key, sig, nil, args, pos)
+							}
+						}
+					}
+				}
+			}
+		}
+	}
 	x.safetyCheck(st, "nil", mkNot(mkEq(fnv.S, "0")), pos)
 	// a value of a named function type: a contract keyed by the type applies
 	if n, ok := fnv.T.(*types.Named); ok {
@@ -812,6 +831,21 @@ func (x *Exec) doCopy(st *State, dst, src Value, pos token.Pos) Value {
 	name, sort := x.elemHeapName(et)
 	h := x.heapTerm(st, name, sort)
 	n := mkIte(mkCmp("<=", dst.Len, src.Len), dst.Len, src.Len)
+	if _, ok := isIntLit(n); !ok {
+		// a small literal destination (or source) length that the path condition forces to be
+		// the number of copied elements: copy element by element instead of by a quantified
+		// definition (e.g. copy(c[:8], span) with len(span) == 8 known from a callee's contract)
+		for _, cand := range []string{dst.Len, src.Len} {
+			if lv, isl := isIntLit(cand); isl && lv.Sign() > 0 && lv.Int64() <= 8 && x.pruner != nil {
+				t := st.clone()
+				t.assume(mkNot(mkEq(n, cand)))
+				if !x.pruner.feasible(x, t.pcList()) {
+					n = cand
+					break
+				}
+			}
+		}
+	}
 	if lit, ok := isIntLit(n); !ok {
 		c := x.d.fresh("copy.n", sInt)
 		st.assume(mkEq(c, n))
